@@ -65,7 +65,7 @@ pub fn run(ctx: &Ctx) {
         check_cbrt,
     );
     let max_len = t.pick(500usize, 2000);
-    let n = t.pick(150_000u64, 5_000_000);
+    let n = t.pick(400_000u64, 5_000_000);
     ctx.generated("random", "cbrt", n, "1..max digits, both signs, scales +-2000 (all residues mod 3), p small / 1..160 / 100 / 95..105", move || free_strategy(max_len, 160, 2), check_cbrt);
     ctx.generated("long-inputs", "cbrt", n / 2, "40..max digits with p in 1..20: more than 3(p+4) digits", move || long_input_strategy(max_len, true), check_cbrt);
     ctx.generated("constructed-roots", "cbrt", n, "x = +-R^3 (+-1 in a far digit) where R = p digits ++ {nothing, 5, 50..0x, 49..9x, 0..0x, 9..9x}", || constructed_strategy(3, 160, true), check_cbrt);
